@@ -168,6 +168,7 @@ class LockAnalysis:
                 self.classes[node.name] = {fn.name: fn for fn in node.body if isinstance(fn, ast.FunctionDef)}
         self._lockmap = {}
         self._self_locking = {}
+        self._oprefs = {}
         self.lock_assigned_in = []
         self.lock_ctors = []
         for cname in ('LRI', 'LRU'):
@@ -379,8 +380,11 @@ class LockAnalysis:
         total = 0
         why = []
 
+        self._oprefs[(cname, id(fn))] = oprefs = []
+
         def count(n, what):
             nonlocal total
+            oprefs.append((what, id(n) in m['locked'], id(n) in loops))
             if id(n) in m['locked']:
                 return
             total += 2 if id(n) in loops else 1
@@ -451,7 +455,13 @@ class LockAnalysis:
             form = '+'.join(sorted(m['forms'])) or 'none'
             if m['irregular']:
                 form += '+irregular'
-            rows.append({'cls': cname, 'name': name, 'touches': coarse,
+            refs = [(w, True, False, id(n) in m['locked'], False) for n, w in touch]
+            for n in ast.walk(fn):      # private references that are not touching: self-locking helpers
+                if isinstance(n, ast.Attribute) and _is_self(n.value) and self._private(n.attr) and n.attr != '_lock' \
+                        and not any(n is t for t, _ in touch):
+                    refs.append(('self.%s (self-locking helper)' % n.attr, True, False, True, False))
+            refs += [(w, False, True, lk, lp) for w, lk, lp in self._oprefs.get((cname, id(fn)), [])]
+            rows.append({'cls': cname, 'name': name, 'touches': coarse, 'refs': refs, 'irregular': m['irregular'],
                          'locked': region and not outside and not m['irregular'], 'region': region, 'form': form,
                          'outside_ops': nops, 'outside_touch': outside, 'outside_why': why})
         return rows
@@ -550,6 +560,11 @@ class C03(Property):
         inherited = [m for m in DICT_MUTATORS if m not in an.classes.get('LRI', {})]
         lines = ['/- GENERATED by harness/bv/props/c03.py from boltons/cacheutils.py (AST of LRI / LRU). Do not edit. -/',
                  'namespace Generated.C03', '',
+                 '/-- one reference inside a method body, as read off the AST: `touch` = it refers to private state /',
+                 '    a C-level dict mutator / the bare cache; `op` = it invokes a cache operation on self;',
+                 '    `underLock` = it lies inside a lock region; `inLoop` = inside a loop or comprehension -/',
+                 'structure Ref where', '  what : String', '  touch : Bool', '  op : Bool', '  underLock : Bool',
+                 '  inLoop : Bool', 'deriving Repr, DecidableEq', '',
                  '/-- one public method of LRI / LRU (constructor and private helpers excluded).',
                  '    `touches`: its body refers to private state (ring, link table, any `self._x`), to a C-level dict',
                  '      mutator through `super()`, or iterates / hands out the bare cache;',
@@ -560,11 +575,18 @@ class C03(Property):
                  '      len(self), …; counted twice inside a loop) invoked outside every lock region. -/',
                  'structure Method where', '  cls : String', '  name : String',
                  '  touches : Bool', '  locked : Bool', '  region : Bool', '  form : String', '  outsideOps : Nat',
+                 '  irregular : Bool', '  refs : List Ref',
                  'deriving Repr, DecidableEq', '',
                  'def methods : List Method := [']
-        lines += ['  ⟨"%s", "%s", %s, %s, %s, "%s", %d⟩%s' % (
-            r['cls'], r['name'], str(r['touches']).lower(), str(r['locked']).lower(), str(r['region']).lower(),
-            r['form'], r['outside_ops'], ',' if i < len(rows) - 1 else '') for i, r in enumerate(rows)]
+
+        def b(x):
+            return str(bool(x)).lower()
+        for i, r in enumerate(rows):
+            refs = ', '.join('⟨"%s", %s, %s, %s, %s⟩' % (w.replace('"', "'"), b(t), b(o), b(lk), b(lp))
+                             for w, t, o, lk, lp in r['refs'])
+            lines.append('  ⟨"%s", "%s", %s, %s, %s, "%s", %d, %s,\n    [%s]⟩%s' % (
+                r['cls'], r['name'], b(r['touches']), b(r['locked']), b(r['region']), r['form'], r['outside_ops'],
+                b(r['irregular']), refs, ',' if i < len(rows) - 1 else ''))
         lines += [']', '', '/-- dict mutators that LRI does not override (they would bypass the ring and the lock) -/',
                   'def inheritedMutators : List String := [%s]' % ', '.join('"%s"' % m for m in inherited), '',
                   '/-- the methods that assign `self._lock`, and the callables they assign -/',
